@@ -108,17 +108,19 @@ def lRangeH (args : List Bytes) : HRes :=
     call (Api.lrange s now key start stop) fun s o =>
       done s (match o with | .blist vs => bulkList (vs.map (·.getD [])) | _ => [.arr 0])
 
-/-- LSET key index value: `index >= LLen(key)` is the only range check (LLen = 0 for a missing key,
-    -1 for another type); the result of `n.LSet` is dropped and OK written -/
+/-- LSET key index value: one call of `n.LSet`; its result decides between OK and the range error (missing key,
+    no such element on either side). (Until the repair "LSET with an index below -len replied OK" the handler
+    compared the index with a separate LLEN and dropped LSet's result.) -/
 def lSetH (args : List Bytes) : HRes :=
   match args with
   | key :: i :: value :: _ =>
     match parseIntGo i with
     | (_, true) => errReply
     | (index, false) => .exec fun s now _ =>
-        call (Api.llen s now key) fun s o =>
-          if index ≥ intOf o then done s [e] else
-          call (Api.lset (Api.commit s) now key index value) fun s _ => done s [ok]
+        call (Api.lset s now key index value) fun s o =>
+          match o with
+          | .bool true => done s [ok]
+          | _ => done s [e]
   | _ => errReply
 
 /-- LPOPRPUSH (left) / RPOPLPUSH src dst -/
@@ -311,16 +313,14 @@ def sOpH (op : MState → Int → List Bytes → Api.R) (args : List Bytes) : HR
       call (op s now args) fun s o => done s (match o with | .slist ms => bulkList ms | _ => [.arr 0])
   | _ => errReply
 
-/-- SDIFFSTORE / SINTERSTORE dst key [key …]: unless every operand exists (`Exists` counts a repeated
-    key once per occurrence) the reply is 0 and nothing is touched; SUNIONSTORE wants at least one -/
-def sStoreH (op : MState → Int → List Bytes → Api.R) (all : Bool) (args : List Bytes) : HRes :=
+/-- SDIFFSTORE / SINTERSTORE / SUNIONSTORE dst key [key …]: the store itself treats a missing operand as the empty
+    set and replaces the destination by the result (an empty result deletes it). (Until the repair "S*STORE with a
+    missing operand replied 0 and left the destination as it was" the handlers first counted the operands with
+    `Exists` and did nothing unless all of them - SUNIONSTORE: one of them - existed; `all` is what is left of that.) -/
+def sStoreH (op : MState → Int → List Bytes → Api.R) (_all : Bool) (args : List Bytes) : HRes :=
   match args with
   | dst :: k :: rest => .exec fun s now _ =>
-      let keys := k :: rest
-      call (Api.exists_ s now keys) fun s o =>
-        let c := intOf o
-        if (all ∧ c ≠ keys.length) ∨ (!all ∧ c = 0) then done s [.int 0] else
-        call (Api.sstore op (Api.commit s) now dst keys) fun s o => done s [.int (intOf o)]
+      call (Api.sstore op s now dst (k :: rest)) fun s o => done s [.int (intOf o)]
   | _ => errReply
 
 def sIsMemberH (args : List Bytes) : HRes :=
